@@ -23,8 +23,13 @@ def sh(cmd, cwd=None, env=None, timeout=7200):
     return p.returncode, (p.stdout + p.stderr)
 
 
-def props_for(files):
-    """properties whose (committed) evidence lists executed functions of one of the touched modules"""
+def props_for(files, functions=()):
+    """properties whose (committed) evidence lists executed functions of one of the touched modules - narrowed to the
+    touched functions (by name) when the patch's meta.json names them and at least one property executes one"""
+    wanted = set()
+    for f in functions or ():
+        for part in str(f).replace("(", " ").replace(")", " ").replace(",", " ").split():
+            wanted.add(part.split(".")[-1].split(":")[-1])
     mods = set()
     for f in files:
         if f.startswith("pynetdicom/") and f.endswith(".py"):
@@ -36,9 +41,11 @@ def props_for(files):
         for h in d["coverage"].get("harnesses", []):
             fns.update(h.get("functions_executed_in_replay", []))
             fns.update(h.get("functions_declared", []))
-        if any(fn.split(":")[0] in mods for fn in fns):
-            out.append(d["property_id"])
-    return out
+        hit = [fn for fn in fns if fn.split(":")[0] in mods]
+        if hit:
+            out.append((d["property_id"], any(fn.split(":")[-1].split(".")[-1] in wanted for fn in hit)))
+    narrow = [p for p, exact in out if exact]
+    return narrow if narrow else [p for p, _ in out]
 
 
 def one(bid, jobs):
@@ -62,7 +69,10 @@ def one(bid, jobs):
         env = dict(os.environ, VERIF_REPO=wt, VERIF_JOBS=str(jobs), VERIF_EVIDENCE_DIR=wt + "/.verif-evidence",
                    VERIF_REPLAY_DIR=wt + "/.verif-replays")
         res["checks"] = {}
-        for p in props_for(files):
+        meta = {}
+        if os.path.exists(os.path.join(d, "meta.json")):
+            meta = json.load(open(os.path.join(d, "meta.json")))
+        for p in props_for(files, meta.get("functions", [])):
             t = time.time()
             rc, out = sh(f"./check {p} --tier quick", cwd=VERIF, env=env)
             lines = [l for l in out.splitlines() if l.startswith(("VIOLATION", "HARNESS-ERROR", "counterexample:"))]
